@@ -327,6 +327,20 @@ def run(ctx):
                 sm2 = c02.BufSim(F, cl, CR)
                 if any(_is_ns_open(cl, sm2, c) for c in cl.calls()):
                     repl.append((i, any(x.name == "push_json_safe_string" for x in cl.calls()), any(x.name == "extend_from_within_range" for x in cl.calls())))
+        # ... or the call of a private helper that holds that loop, with the copy of the first directive either in the helper or in a
+        # closure it is handed for the part that differs between the emission sites
+        for c in b.calls():
+            for hb in local_callee_bodies(F, c):
+                if hb.crate != CR or hb.kind == "Closure" or hb.def_ == b.def_:
+                    continue
+                smh = c02.BufSim(F, hb, CR)
+                opens = [x for x in hb.calls() if _is_ns_open(hb, smh, x) and x.bb in hb.reachable_after(x.bb)]
+                if not opens:
+                    continue
+                cls_ = closure_args(F, c)
+                repl.append((c.bb, any(x.name == "push_json_safe_string" for x in hb.calls()),
+                             any(x.name == "extend_from_within_range" for x in hb.calls()) or
+                             (bool(cls_) and all(any(x.name == "extend_from_within_range" for x in cl_.calls()) for cl_ in cls_))))
         for w in writes:
             near = [r for r in repl if w.bb in b.reachable_after(r[0])]
             # the replication loop belonging to this write: the last one before it
